@@ -39,7 +39,10 @@ def run(chk):
         "Details::merge, which drops differing constants. R12c: Op::resolve_constant evaluates each opcode with the same VrlValueArithmetic method as "
         "Op::resolve. R12d: closure parameters get `value: None` except VariableKind::Target. R12e: who-may-consume — callers of resolve_constant / "
         "Expr::as_literal outside the stdlib are exactly the reviewed table (a new consumer in the compiler, e.g. lowering an operand to a literal, "
-        "must be reviewed against closures that run more than once). Undecided: constants through closures (upstream TODO #13782).")
+        "must be reviewed against closures that run more than once). R12h: who-may-produce — a `Details { value: .. }` with a value that is not "
+        "`None` is constructed only at the reviewed producer sites (assignment of the right-hand side's constant, the closure Target variable, "
+        "Details::merge/clone); every other constructor (del, branch merges, deletions on external paths) stores `None`, i.e. invalidates. Undecided: "
+        "constants through closures (upstream TODO #13782).")
     typestate.rule_mutator_pairing(chk, "R12a")
     typestate.rule_join_discipline(chk, "R12b")
 
@@ -191,3 +194,44 @@ def run(chk):
                           "%s consumes compile-time constants (%s) but is not in the reviewed table: constants can be stale where a closure re-runs or a "
                           "variable is reassigned, so each consumer must be reviewed" % (n, sorted(what)), detail=d,
                           loc=("%s:%d" % (nb.file, nb.line)) if nb else None)
+
+    rule_r12h(chk)
+
+
+DETAILS = "compiler::type_def::Details"
+CONST_PRODUCERS = {
+    "compiler::expression::assignment::Target::insert_type_def": "stores the constant of the assigned expression (R12f/R12g decide which)",
+    "compiler::expression::function_call::Builder::<'a>::check_closure": "VariableKind::Target gets the target's constant (R12d)",
+    "compiler::type_def::Details::merge": "keeps a constant only when both sides agree (R12b)",
+    "<compiler::type_def::Details as std::clone::Clone>::clone": "copy",
+    "compiler::state::LocalEnv::merge": "the branch that did not bind the variable is modelled as `null` (constant Null) and merged at once with the binding of "
+                                        "the other branch through Details::merge (R12b/R01c), which keeps a constant only if both agree",
+}
+
+
+def rule_r12h(chk):
+    from facts import flow_sources, op_local
+    facts = chk.facts
+    rid = "R12h"
+    chk.rule(rid, "only the reviewed producer sites construct Details with a value other than None", floor=8)
+    for n in sorted(facts.grep('"adt":"%s"' % DETAILS)):
+        b = facts.body(n)
+        base = n.split("::{closure")[0]
+        for k, (bi, si, st) in enumerate(cfgq.agg_sites(b, DETAILS)):
+            rv = st["rv"]
+            ops = dict(zip(rv.get("fnames", []), rv["ops"]))
+            v = ops.get("value")
+            none_only = False
+            srcs = []
+            if v is not None and op_local(v) is not None:
+                fs = flow_sources(b, op_local(v), pass_through=lambda c: False)
+                srcs = sorted(set("%s %s" % (x[0], x[3] if x[0] == "agg" and len(x) > 3 else (x[2] if len(x) > 2 else x[1])) for x in fs))
+                none_only = bool(fs) and all(x[0] == "agg" and x[2] == "std::option::Option" and x[3] == "None" for x in fs)
+            d = {"fn": n, "at": "%s:%s" % (b.file, st.get("ln")), "value_sources": srcs[:5], "stores_none_only": none_only, "reviewed_producer": CONST_PRODUCERS.get(base)}
+            ok = none_only or base in CONST_PRODUCERS
+            chk.instance(rid, d, ok=ok)
+            if not ok:
+                chk.violation(rid, b.file, n, "unreviewed constant producer #%d" % k,
+                              "%s stores a compile-time constant (value sources: %s) although it is not one of the reviewed producers: a constant computed "
+                              "outside the assignment path must be exactly what the run time will hold on every path (e.g. a deletion whose `compact` flag is "
+                              "only known at run time)" % (n, srcs[:3]), detail=d, loc=d["at"])
